@@ -74,7 +74,7 @@ def position_oracles(run, want):
         script = run.script_of(gid)
         root = script[0][4:] if script else "?"
         moves_so_far = []
-        rules = run.rules_line(gid) if "C01" in want else []
+        rules = run.rules_line(gid) if ("C01" in want or "C20" in want) else []
         ply_no = -1
         for i, p in enumerate(plies):
             if p.obs is None:
@@ -136,6 +136,18 @@ def position_oracles(run, want):
                         if pr in want:
                             fails[pr].append(("after %s the engine's position is '%s' but the rules prescribe '%s'" % (p.move, f14, exp),
                                               dict(ctx, expected=exp, got=f14)))
+            if "C11" in want and p.imp is not None:
+                # re-import of the exported text: must succeed and give the same position, hash and legal moves
+                if not p.imp.startswith("imp ok"):
+                    fails["C11"].append(("the engine refuses to re-import its own exported FEN '%s' (%s)" % (fen, p.imp[:120]), dict(ctx, reimport=p.imp[:200])))
+                else:
+                    kv2 = parse_kv(p.imp)[1]
+                    fen2 = fen_of_obs(kv2)
+                    cu0 = ",".join(sorted(uci_of_desc(d) for d in (p.gend["checked"].split(",") if p.gend and p.gend.get("checked") else [])))
+                    cu2 = ",".join(sorted(x for x in kv2.get("checked", "").split(",") if x))
+                    if fields14(fen2) != f14 or kv2.get("hash") != p.obs["hash"] or (p.gend and cu0 != cu2):
+                        fails["C11"].append(("re-importing the exported FEN '%s' gives a different game: fields '%s', hash %s vs %s, moves equal: %s" % (
+                            fen, fields14(fen2), kv2.get("hash"), p.obs["hash"], cu0 == cu2), dict(ctx, reimport=p.imp[:300])))
             if "C11" in want:
                 if s.get("six") != "1":
                     fails["C11"].append(("exported FEN does not have six well-formed fields: %s" % fen, ctx))
@@ -176,6 +188,11 @@ def position_oracles(run, want):
             # --- C20: show agrees with the game; the record names what was played
             if "C20" in want and p.show is not None:
                 err = check_show(p, fen)
+                if not err and ply_no < len(rules) and rules[ply_no].get("sane") == "1":
+                    # the Fen line must describe the position the rules reach from the root (not merely repeat fen())
+                    want14 = rules[ply_no].get("render", "").replace("_", " ")
+                    if want14 and f14 != want14:
+                        err = "the Fen line shows '%s' but the game played from %s is '%s'" % (f14, root, want14)
                 if err:
                     fails["C20"].append((err + " in " + fen, ctx))
             if "C20" in want and p.pgn is not None:
@@ -310,7 +327,33 @@ def check_C04(chk):
                           "as C01.")
 
 
+def collide_run(chk):
+    """the exploration half of C05: every position of the legal-move trees below, distinct positions => distinct hashes"""
+    roots = positions.ROOTS[:6]
+    depth = {0: 5, 1: 4, 2: 5, 3: 4, 4: 4, 5: 4} if chk.tier == "quick" else {0: 5, 1: 4, 2: 6, 3: 5, 4: 4, 5: 4}
+    blocks = [["# e%d" % i, "new " + f, "collide %d" % depth[i]] for i, f in enumerate(roots)]
+    res = run_blocks(HARNESS, blocks, timeout=1500)
+    total = {"tree_nodes": 0, "distinct_positions": 0}
+    for i, f in enumerate(roots):
+        ln = next((l for l in res.get("e%d" % i, []) if l.startswith("collide ")), None)
+        if ln is None:
+            chk.violation("the collision exploration of %s did not finish" % f, {"root": f, "output": res.get("e%d" % i, [])[:3]}, found_input=False)
+            continue
+        kv = parse_kv(ln)[1]
+        total["tree_nodes"] += int(kv["nodes"])
+        total["distinct_positions"] += int(kv["distinct"])
+        if kv.get("collision") != "none":
+            a, b = kv["collision"].replace("_", " ").split("|")
+            chk.violation("two different positions share a hash: '%s' and '%s' (both within %d plies of %s)" % (a, b, depth[i], f),
+                          {"root": f, "depth": depth[i], "positions": [a, b], "kind": "collision found on the implementation"})
+    chk.cov["collision_exploration"] = total
+    chk.notes.append("collision freedom over the explored set is an exploration (it cannot be a theorem): %d distinct positions from %d tree nodes, no two sharing a hash" % (
+        total["distinct_positions"], total["tree_nodes"]))
+
+
 def check_C05(chk):
+    lib.CURRENT_TIER = chk.tier
+    collide_run(chk)
     return position_check(chk, RULE_PLAYOUT + " Oracle: distinct FEN fields 1-4 => distinct hashes over the whole run (exploration half).",
                           "as C01.")
 
